@@ -272,6 +272,7 @@ impl World {
       if take_event {
         vtime::set_now(acts[i].t);
         let a = acts[i].act.clone();
+        self.log.mark(0, "act", i as i64);
         self.act(&a);
         i += 1;
       } else {
@@ -331,6 +332,7 @@ impl World {
           // the scripted instant the event simply happens now
           vtime::set_now(acts[i].t);
           let a = acts[i].act.clone();
+          self.log.mark(0, "act", i as i64);
           self.act(&a);
           i += 1;
         }
@@ -342,6 +344,7 @@ impl World {
             if a.t < due {
               vtime::set_now(a.t);
               let a = a.act.clone();
+              self.log.mark(0, "act", i as i64);
               self.act(&a);
               i += 1;
               continue;
@@ -387,9 +390,30 @@ impl World {
   }
 
   /// drop everything a case left behind
-  pub fn teardown(self) {
+  pub fn teardown(mut self) {
+    // guards are forgotten, not dropped: tearing a case down is not an unsubscription
+    for s in self.subs.drain(..) {
+      match s {
+        Sub::LGuard(g) => std::mem::forget(g),
+        Sub::TGuard(g) => std::mem::forget(g),
+        _ => {}
+      }
+    }
     self.arena.clear();
     clear_local_cbs();
     let _ = build::instant_at;
+  }
+}
+
+impl Drop for World {
+  fn drop(&mut self) {
+    // while unwinding from a library panic (or a detected self-deadlock) the
+    // library's cells may be poisoned / still locked: never run unsubscribe
+    // logic from here, leak instead
+    if std::thread::panicking() {
+      for s in self.subs.drain(..) {
+        std::mem::forget(s);
+      }
+    }
   }
 }
